@@ -107,6 +107,11 @@ def run(ctx):
         call = [c for c in calls_at(dels[0]) if isinstance(c.func, ast.Attribute) and c.func.attr == 'delete'][0]
         q = [c for c in ast.walk(call) if isinstance(c, ast.Call) and isinstance(c.func, ast.Attribute) and c.func.attr == 'query']
         base = len(q) == 1 and q[0].args and U(q[0].args[0]).endswith('ManagedObject')
+        if not q and is_self_attr(call.func.value, '_data_session') and len(call.args) == 1 and isinstance(call.args[0], ast.Name):
+            # unit-of-work form: session.delete(<the object loaded for this very request>) removes its row from every table of its class, the base row included
+            drd = ReachingDefs(g)
+            vals = drd.values(dels[0], call.args[0].id)
+            base = bool(vals) and all(isinstance(v, ast.Call) and U(v.func) == 'self._get_object_with_access_controls' for v in vals)
         ctx.check(base, 'C07.R3', 'KmipEngine._process_destroy|deletes-base-row', m.site(call, d), 'the base-table row is deleted', 'the delete does not target the base table row (the identifier would stay resolvable)')
     # ---------------- R4
     n_reads = 0
